@@ -71,21 +71,9 @@ def isInf (x : Float) : Bool := x.isInf
 def scaleFn (scale : Nat) (delta : Float) : TDigest.ScaleFn Float :=
   match scale with
   | 0 => TDigest.k0 delta
-  | 1 => { f := fun q _ => let q := clampF q 0 1; delta / (2 * piF) * (2 * q - 1).asin,
-           fInv := fun k _ => let range := 0.25 * delta; let k := clampF k (-range) range
-                              ((k * 2 * piF / delta).sin + 1) / 2 }
-  | 2 =>
-    let x := fun (n : Nat) => delta / (4 * (Float.ofNat n / delta).log + 24)
-    { f := fun q n => let q := clampF q 0 1; x n * (q / (1 - q)).log,
-      fInv := fun k n => if isInf k then (if k > 0 then 1 else 0) else let z := (k / x n).exp; z / (z + 1) }
-  | _ =>
-    let x := fun (n : Nat) => delta / (4 * (Float.ofNat n / delta).log + 21)
-    { f := fun q n => let q := clampF q 0 1
-                      let y := if q ≤ 0.5 then (2 * q).log else -((2 * (1 - q)).log)
-                      x n * y,
-      fInv := fun k n => if isInf k then (if k > 0 then 1 else 0) else
-                         let xx := x n
-                         if k ≤ 0 then (k / xx).exp / 2 else 1 - (-k / xx).exp / 2 }
+  | 1 => TDigest.k1 delta
+  | 2 => TDigest.k2 delta 24
+  | _ => TDigest.k3 delta 21
 
 def posInf : Float := 1.0 / 0.0
 def negInf : Float := -1.0 / 0.0
@@ -520,10 +508,15 @@ def step1 (s : DState) (toks : List String) : DState × String :=
         | some (none, _) => ({ s with insts := s.insts.insert id .poisoned }, "panic")
         | none => (s, "bad-op")
       else if op == "drop" then ({ s with insts := s.insts.erase id }, "ok") else
+      let otherPoisoned := (op.endsWith ".union" || op.endsWith ".merge") &&
+        (match args with
+         | j :: _ => (match s.insts[j]? with | some .poisoned => true | _ => false)
+         | [] => false)
       match s.insts[id]? with
       | none => (s, "bad-op")
       | some .poisoned => (s, "poisoned")
       | some inst =>
+        if otherPoisoned then (s, "poisoned") else
         -- take the instance out of the map so that array updates are in place
         let s0 := { s with insts := s.insts.erase id }
         let out := match inst with
